@@ -890,7 +890,10 @@ pub fn run() {
             "gauss_x_calls": seen * (cols as u64) * 2, "block_sizes": format!("1..={cols}"), "modes": 2}));
     }
     c.extra("exhaustive_shapes", Value::Array(exh));
-    c.extra("exhaustive", json!({"what": "all 0/1 matrices of the listed shapes x all block sizes 1..=cols x both modes", "completed": all_done && c.replay.is_none()}));
+    // `exhaustive` stays false for the run as a whole (the random families are sampled); the
+    // completely enumerated sub-space is described separately
+    c.extra("exhaustive", json!(false));
+    c.extra("exhaustive_part", json!({"what": "all 0/1 matrices of the listed shapes x all block sizes 1..=cols x both modes", "completed": all_done && c.replay.is_none()}));
 
     // ---- degenerate shapes ----
     par_cases("degenerate", 5, move |_r, i| {
